@@ -16,10 +16,22 @@ pub fn rt() -> tokio::runtime::Runtime {
     tokio::runtime::Builder::new_multi_thread().worker_threads(4).enable_all().build().unwrap()
 }
 
-pub fn free_port() -> u16 {
-    let l = std::net::TcpListener::bind("127.0.0.1:0").unwrap();
-    l.local_addr().unwrap().port()
+/// Ports are drawn OUTSIDE the kernel's ephemeral range (32768-60999), which serves every `bind(0)` of the
+/// harness's targets and every outgoing connection: a port picked here cannot be handed to someone else
+/// between the pick and its use. Listeners started later: 10000-19999; addresses that must refuse: 20000-29999.
+fn pick_port(lo: u16, hi: u16) -> u16 {
+    use std::sync::atomic::{AtomicU64, Ordering};
+    static N: AtomicU64 = AtomicU64::new(0);
+    let seed = std::process::id() as u64 * 7919 + std::time::SystemTime::now().duration_since(std::time::UNIX_EPOCH).map(|d| d.subsec_nanos() as u64).unwrap_or(0);
+    loop {
+        let k = N.fetch_add(1, Ordering::SeqCst);
+        let x = (seed.wrapping_add(k.wrapping_mul(0x9e37_79b9_7f4a_7c15)) >> 17) % (hi - lo) as u64;
+        let port = lo + x as u16;
+        if std::net::TcpListener::bind(("127.0.0.1", port)).is_ok() && std::net::TcpListener::bind(("::1", port)).map(|_| true).unwrap_or(true) { return port; }
+    }
 }
+
+pub fn free_port() -> u16 { pick_port(10000, 20000) }
 
 pub async fn wait_listening(addr: &str) -> bool {
     for _ in 0..200 {
@@ -110,7 +122,7 @@ pub async fn start_target(bind: &str, mode: TargetMode) -> Target {
 }
 
 /// A loopback port on which nothing listens (connection refused).
-pub fn refusing_addr() -> SocketAddr { format!("127.0.0.1:{}", free_port()).parse().unwrap() }
+pub fn refusing_addr() -> SocketAddr { format!("127.0.0.1:{}", pick_port(20000, 30000)).parse().unwrap() }
 
 pub async fn wait_until(mut f: impl FnMut() -> bool, ms: u64) -> bool {
     let t0 = std::time::Instant::now();
